@@ -8647,6 +8647,10 @@ func (c *BytecodeCompiler) patchJumpWithTarget(target int, offset int, location 
 func (c *BytecodeCompiler) patchJump(offset int, location *position.Location) {
 	target := c.nextInstructionOffset() - offset - 2
 	c.patchJumpWithTarget(target, offset, location)
+	// the next instruction is a jump target, it can be reached
+	// without executing the last emitted instruction
+	c.lastOpCode = bytecode.NOOP
+	c.secondToLastOpCode = bytecode.NOOP
 }
 
 // Emit an instruction that sets a local variable or value
